@@ -12,6 +12,10 @@ REL = {'C01': ['C01', 'C20', 'C04'], 'C02': ['C02', 'C17', 'C05'], 'C03': ['C03'
        'C20': ['C20', 'C01']}
 
 
+REPO = os.environ.get('TRIAL_REPO', '/repo')       # tree the change is applied to (and undone in)
+VERIF = os.environ.get('TRIAL_VERIF', '/verif')
+
+
 def sh(cmd, **kw):
     return subprocess.run(cmd, shell=True, stdout=subprocess.PIPE, stderr=subprocess.STDOUT,
                           text=True, **kw)
@@ -19,19 +23,19 @@ def sh(cmd, **kw):
 
 def trial(sid, d, pid, checks=None):
     log = []
-    assert sh('git -C /repo diff --quiet').returncode == 0, 'repo not clean'
-    r = sh(f'git -C /repo apply {d}/patch.diff')
+    assert sh(f'git -C {REPO} diff --quiet').returncode == 0, 'repo not clean'
+    r = sh(f'git -C {REPO} apply {d}/patch.diff')
     if r.returncode:
         return {'applies': False, 'log': r.stdout}
     res = {'applies': True, 'checks': {}}
     try:
-        t = sh('cd /repo && /venv/bin/python -m pytest -q -p no:cacheprovider 2>&1 | tail -1')
+        t = sh(f'cd {REPO} && PYTHONPATH={REPO}/src /venv/bin/python -m pytest -q -p no:cacheprovider 2>&1 | tail -1')
         res['tests'] = t.stdout.strip()
-        dm = sh(f'PYTHONPATH=/repo/src /venv/bin/python {d}/demo.py 2>&1 | tail -4')
-        res['demo_rc_changed'] = sh(f'PYTHONPATH=/repo/src /venv/bin/python {d}/demo.py >/dev/null 2>&1; echo $?').stdout.strip()
+        dm = sh(f'DECIMALFP_FORCE_PYTHON_IMPL=1 PYTHONPATH={REPO}/src /venv/bin/python {d}/demo.py 2>&1 | tail -4')
+        res['demo_rc_changed'] = sh(f'DECIMALFP_FORCE_PYTHON_IMPL=1 PYTHONPATH={REPO}/src /venv/bin/python {d}/demo.py >/dev/null 2>&1; echo $?').stdout.strip()
         res['demo_tail'] = dm.stdout.strip()[-400:]
         for p in (checks or REL[pid]):
-            c = sh(f'cd /verif && ./check {p} --tier quick 2>&1')
+            c = sh(f'cd {VERIF} && QUANTITY_REPO={REPO} ./check {p} --tier quick 2>&1')
             lines = [l for l in c.stdout.strip().splitlines() if not l.startswith('WARNING')]
             viol = [l for l in lines if l.startswith('VIOLATION')]
             summ = lines[-1] if lines else ''
@@ -47,9 +51,9 @@ def trial(sid, d, pid, checks=None):
                                 'no_failing_input': sum('no-failing-input-found' in v for v in viol),
                                 'summary': summ[-200:], 'what': what}
     finally:
-        sh('git -C /repo checkout -- .')
+        sh(f'git -C {REPO} checkout -- .')
     # demo on the unchanged tree
-    res['demo_rc_unchanged'] = sh(f'PYTHONPATH=/repo/src /venv/bin/python {d}/demo.py >/dev/null 2>&1; echo $?').stdout.strip()
+    res['demo_rc_unchanged'] = sh(f'DECIMALFP_FORCE_PYTHON_IMPL=1 PYTHONPATH={REPO}/src /venv/bin/python {d}/demo.py >/dev/null 2>&1; echo $?').stdout.strip()
     return res
 
 
@@ -63,13 +67,17 @@ def main():
     for n in range(1, 21):
         pid = f'C{n:02d}'
         src = f'/tmp/mutout_{pid}'
-        for var, suffix in (('a', ''), ('b', '_B'), ('c', '_C')):
+        for var, suffix in (('a', ''), ('b', '_B'), ('c', '_C'), ('d', None), ('e', None)):
+            sid = f'{pid}-{var}'
+            if suffix is None:          # second round: one directory per change
+                src, suffix = f'/tmp/mutout2_{sid}', ''
+            else:
+                src = f'/tmp/mutout_{pid}'
             pf = f'{src}/patch{suffix}.diff'
             df = f'{src}/demo{suffix}.py'
-            sid = f'{pid}-{var}'
             if only and sid not in only:
                 continue
-            d = f'/verif/seeded/{sid}'
+            d = f'{VERIF}/seeded/{sid}'
             if not (os.path.exists(pf) and os.path.exists(df)):
                 continue
             if os.path.exists(f'{d}/trial.json') and not only:
